@@ -316,10 +316,18 @@ def N.scan (s : N) (p : El) (kd : Kind) (k : Key) (v : String) : Option El :=
 def N.scanCI (s : N) (p : El) (kd : Kind) (v : String) : Option El :=
   (s.kids p).find? (fun c => c.kind = kd && ((s.info c).ident).map lower == some (lower v))
 
-/-- `NamespaceManager.lookup`: the parent's table when it indexes the key and has a hit, else the
-    linear scan (repaired behaviour: parents without table, keys the DEFAULT class does not index, and
-    children attached without callbacks fall through to the scan). -/
-def N.lookup (s : N) (p : El) (kd : Kind) (k : Key) (v : String) : Option El :=
+/-- all children of the class whose key has exactly the value (`global_service.linear_lookup_all`) -/
+def N.scanAll (s : N) (p : El) (kd : Kind) (k : Key) (v : String) : List El :=
+  (s.kids p).filter (fun c => c.kind = kd && (s.info c).get k == some v)
+
+/-- all children of the class whose identifier equals the value ignoring case -/
+def N.scanAllCI (s : N) (p : El) (kd : Kind) (v : String) : List El :=
+  (s.kids p).filter (fun c => c.kind = kd && ((s.info c).ident).map lower == some (lower v))
+
+/-- what `get_*(parent, exact, key=...)` returns (`global_service.lookup_all`): the parent's table when it
+    indexes the key and has a hit, else every match of the linear scan (parents without table, keys the
+    DEFAULT class does not index, children attached without callbacks). -/
+def N.lookup (s : N) (p : El) (kd : Kind) (k : Key) (v : String) : List El :=
   let hit : Option El :=
     if s.hasTbl p then
       (match k with
@@ -329,7 +337,7 @@ def N.lookup (s : N) (p : El) (kd : Kind) (k : Key) (v : String) : Option El :=
           | .default => none)
     else none
   match hit with
-  | some e => some e
-  | none => s.scan p kd k v
+  | some e => [e]
+  | none => s.scanAll p kd k v
 
 end Spydr.Names
